@@ -11,15 +11,43 @@ import warnings
 TARGET_PARTS = ('beartype/_conf/confmain.py', 'beartype/_util/cache/map/utilmapunbounded.py', 'beartype/door/_cls/doormeta.py',
                 'beartype/_util/cache/utilcachecall.py', 'beartype/claw/_package/clawpkgmain.py', 'beartype/claw/_package/clawpkgtrie.py',
                 'beartype/_check/checkmake.py', 'beartype/_util/cache/pool/utilcachepool.py', 'beartype/_decor/decorcache.py',
-                'beartype/door/_func/doorfunc.py', 'c15_impl.py')
+                'beartype/door/_func/doorfunc.py', 'beartype/_check/cls/call/calldatadecorfunc.py', 'c15_impl.py')
+# files traced only around the lines that take an object from a pool or give one back
+PARTIAL_PARTS = ('beartype/_check/code/codemain.py', 'beartype/_check/error/errmain.py')
+POOL_FILES = ('calldatadecorfunc.py', 'utilcachepool.py', 'codemain.py')
+_PARTIAL_LINES = {}
+
+
+def partial_lines(filename):
+    """line numbers of a partially traced file within 6 lines of an acquire_* / release_* call"""
+    if filename not in _PARTIAL_LINES:
+        keep = set()
+        try:
+            with open(filename) as f:
+                lines = f.read().split('\n')
+        except OSError:
+            lines = []
+        for i, l in enumerate(lines, 1):
+            t = l.strip()
+            if not t.startswith('#') and ('acquire_' in t or 'release_' in t) and 'import' not in t:
+                keep.update(range(i - 6, i + 7))
+        _PARTIAL_LINES[filename] = keep
+    return _PARTIAL_LINES[filename]
 
 
 class Scheduler:
     """token passing: only the thread holding the token runs traced code; a thread blocked on a real lock
     (it does not come back within `patience`) is left alone and another one is scheduled"""
 
-    def __init__(self, seed, patience=0.02):
+    def __init__(self, seed, patience=0.02, plan=None):
         self.rng = random.Random(seed)
+        self.plan = plan            # None: uniform random; 'sequential'; or a directed plan (see choose)
+        self.phase = 0
+        self.at = {}                # tid -> (file, line) it is about to execute
+        self.seen = {}              # (tid, file, line) -> number of times reached
+        self.tsteps = {}            # tid -> traced steps taken
+        self.log0 = []              # positions of thread 0, in order
+        self.phase1_start = None
         self.cond = threading.Condition()
         self.waiting = set()
         self.token = None
@@ -32,19 +60,30 @@ class Scheduler:
     def tracer(self, tid):
         def local(frame, event, arg):
             if event == 'line':
-                self.pause(tid)
+                fn = frame.f_code.co_filename
+                if fn.endswith(PARTIAL_PARTS) and frame.f_lineno not in partial_lines(fn):
+                    return local
+                self.pause(tid, (fn, frame.f_lineno))
             return local
 
         def glob(frame, event, arg):
             fn = frame.f_code.co_filename
-            if any(fn.endswith(p) for p in TARGET_PARTS) and frame.f_code.co_name not in ('pause', 'tracer', 'local', 'glob', 'worker'):
+            if self.plan is not None and not fn.endswith(POOL_FILES):
+                return None            # directed schedules only need the pool-handling files
+            if (fn.endswith(TARGET_PARTS) or fn.endswith(PARTIAL_PARTS)) and frame.f_code.co_name not in ('pause', 'tracer', 'local', 'glob', 'worker'):
                 return local
             return None
         return glob
 
-    def pause(self, tid):
+    def pause(self, tid, pos=None):
         with self.cond:
             self.steps += 1
+            self.tsteps[tid] = self.tsteps.get(tid, 0) + 1
+            if pos is not None:
+                self.at[tid] = pos
+                self.seen[(tid,) + pos] = self.seen.get((tid,) + pos, 0) + 1
+                if tid == 0:
+                    self.log0.append(pos)
             self.waiting.add(tid)
             if self.token == tid:
                 self.token = None
@@ -52,6 +91,35 @@ class Scheduler:
             while self.token != tid:
                 self.cond.wait(1.0)
             self.waiting.discard(tid)
+
+    def choose(self, ready):
+        """who runs next.  Directed plan {'file','line','occ','other_steps'}: thread 0 runs alone until it is about to execute the
+        occ-th visit of (file, line); thread 1 then runs other_steps traced steps; thread 0 runs to its end; the others finish"""
+        if self.plan is None:
+            return self.rng.choice(ready)
+        if self.plan == 'sequential':
+            return ready[0]
+        pl = self.plan
+        if self.phase == 0:
+            pos = self.at.get(0)
+            if 0 in self.done:
+                self.phase = 3
+            elif pos is not None and pos[0].endswith(pl['file']) and pos[1] == pl['line'] and self.seen.get((0,) + pos, 0) == pl['occ']:
+                self.phase = 1
+                self.phase1_start = self.tsteps.get(1, 0)
+            elif 0 in ready:
+                return 0
+        if self.phase == 1:
+            if 1 in self.done or self.tsteps.get(1, 0) - self.phase1_start >= pl['other_steps']:
+                self.phase = 2
+            elif 1 in ready:
+                return 1
+        if self.phase == 2:
+            if 0 in self.done:
+                self.phase = 3
+            elif 0 in ready:
+                return 0
+        return ready[0] if self.phase == 3 or 0 not in ready else ([t for t in ready if t != 0] or ready)[0]
 
     def worker(self, tid, fn, results):
         sys.settrace(self.tracer(tid))
@@ -89,7 +157,7 @@ class Scheduler:
                 if not ready:
                     self.cond.wait(self.patience)
                     continue
-                nxt = self.rng.choice(ready)
+                nxt = self.choose(ready)
                 if nxt != last:
                     self.switches += 1
                 last = nxt
@@ -154,7 +222,9 @@ def scenario(name, seed):
             return out
         return fns, judge
     if name == 'check':
-        hint = Dict[str, List[Union[int, str]]] if seed % 2 else List[Dict[str, int]]
+        from typing import Literal, Tuple
+        fresh = Tuple[Literal['c%d' % seed]]          # a hint nobody checked before: the check is really generated
+        hint = Dict[str, List[Union[int, str, fresh]]] if seed % 2 else List[Dict[str, Union[int, fresh]]]
         objs = [{'a': [1, 'x']}, {'a': [1.5]}, [{'k': 1}], [{'k': 'v'}]]
         fns = [(lambda o=o: is_bearable(o, hint)) for o in rng.sample(objs, 3)]
         expect = None
@@ -168,9 +238,11 @@ def scenario(name, seed):
         return fns, judge
     if name == 'decorate':
         def mk(i):
-            def f(x: List[int], y: Dict[str, int] = None) -> List[int]:
+            def f(x: List[int], y: Dict[str, int] = None, z=None) -> List[int]:
                 return x
             f.__name__ = 'f%d' % i
+            from typing import Literal, Optional
+            f.__annotations__['z'] = Optional[List[Literal['fresh%d_%d' % (seed, i % 2)]]]
             return f
         fs = [mk(i) for i in range(3)]
 
@@ -203,11 +275,58 @@ def scenario(name, seed):
     raise ValueError(name)
 
 
+def directed(case):
+    """systematic single-preemption schedules around the object pools: thread 0 is parked just before each line it executes in
+    the pool-handling files, thread 1 runs a quarter / half / three quarters of its own work, thread 0 finishes, the rest finish"""
+    name, seed = case['scenario'], case['seed']
+    for warm in range(2):            # the first runs fill process-wide memos; positions are stable afterwards
+        fns, judge = scenario(name, seed * 7 + warm)
+        Scheduler(seed, plan='sequential').run(fns)
+    fns, judge = scenario(name, seed * 7 + 2)
+    dry = Scheduler(seed, plan='sequential')
+    dry.run(fns)
+    per_thread = max(1, dry.tsteps.get(1, 1))
+    targets, occ = [], {}
+    for pos in dry.log0:
+        occ[pos] = occ.get(pos, 0) + 1
+        if pos[0].endswith(POOL_FILES) and occ[pos] <= 2:
+            targets.append((pos[0], pos[1], occ[pos]))
+    rng = random.Random(seed)
+    if len(targets) > case.get('max_targets', 10 ** 9):
+        targets = rng.sample(targets, case['max_targets'])
+    res = {'finished': True, 'steps': 0, 'switches': 0, 'outcomes': {}, 'problems': [], 'exceptions': [], 'schedules': 0,
+           'targets': len(targets), 'failing_plans': []}
+    k = 3
+    for (fn, line, n) in targets:
+        for frac in (0.25, 0.5, 0.75):
+            plan = {'file': fn, 'line': line, 'occ': n, 'other_steps': max(1, int(per_thread * frac))}
+            k += 1
+            fns, judge = scenario(name, seed * 7 + k)
+            sched = Scheduler(seed, plan=plan)
+            results, finished = sched.run(fns)
+            res['schedules'] += 1
+            res['steps'] += sched.steps
+            res['switches'] += sched.switches
+            probs = judge(results) if finished else ['not all threads finished (deadlock or livelock under the scheduler)']
+            excs = [v[1] for v in results.values() if v[0] == 'exc']
+            if probs or excs:
+                short = {'file': fn[fn.rfind('beartype/'):], 'line': line, 'occ': n, 'other_steps': plan['other_steps']}
+                res['failing_plans'].append(short)
+                res['problems'] += ['%s [thread 0 parked before %s:%d, thread 1 ran %d steps]' % (p, short['file'], line, plan['other_steps']) for p in probs]
+                res['exceptions'] += ['%s [thread 0 parked before %s:%d, thread 1 ran %d steps]' % (e, short['file'], line, plan['other_steps']) for e in excs]
+                if len(res['failing_plans']) >= 3:
+                    return res
+    return res
+
+
 def main():
     warnings.simplefilter('ignore')
     payload = json.load(sys.stdin)
     out = []
     for case in payload['cases']:
+        if case.get('mode') == 'directed':
+            out.append(directed(case))
+            continue
         sched = Scheduler(case['seed'])
         fns, judge = scenario(case['scenario'], case['seed'])
         results, finished = sched.run(fns)
